@@ -73,7 +73,7 @@ class Prop:
     id = "C32"
     level = "exploration"
     engine = "TH (controlled threads: baton passing, line-level pre-emption points, simulated locks/conditions/clock)"
-    quick_runs = 20000
+    quick_runs = 14000
     thorough_runs = 300000
     chunk = 100
     time_unit = "simulated seconds"
